@@ -251,14 +251,16 @@ def reinsert (H : Bytes → Nat) (keyAt : KeyAt) : List Elem → RHH → Except 
       let (t', _) ← insertIDbyOffset H keyAt t e.offset e.id
       reinsert H keyAt es t'
 
+/-- The growth step of index.insert: when the element count (already incremented) exceeds the
+threshold, allocate twice the capacity and re-insert every element. -/
+def grow (H : Bytes → Nat) (keyAt : KeyAt) (t : RHH) : Except String RHH :=
+  if t.n > t.threshold then reinsert H keyAt t.elems (t.alloc (t.elems.length * 2)) else .ok t
+
 /-- The table part of index.insert. -/
 def insert (H : Bytes → Nat) (keyAt : KeyAt) (t : RHH) (offset id : Nat) : Except String RHH := do
-  let t1 := { t with n := t.n + 1 }
-  let t2 ← if t1.n > t1.threshold then
-      reinsert H keyAt t1.elems (t1.alloc (t1.elems.length * 2))
-    else pure t1
-  let (t3, overwritten) ← insertIDbyOffset H keyAt t2 offset id
-  return if overwritten then { t3 with n := t3.n - 1 } else t3
+  let t2 ← grow H keyAt { t with n := t.n + 1 }
+  let r ← insertIDbyOffset H keyAt t2 offset id
+  return if r.2 then { r.1 with n := r.1.n - 1 } else r.1
 
 end RHH
 
